@@ -23,6 +23,18 @@ fn main() {
     if args[0] == "--worker" {
         props::c14::worker_main();
     }
+    if args[0] == "--dump-seeds" {
+        // seed corpus for the libFuzzer target: the C14 seed images, one file each
+        let dir = args.get(1).cloned().unwrap_or_else(|| usage());
+        std::fs::create_dir_all(&dir).expect("create seed dir");
+        let seeds = props::c14::seeds();
+        for (i, (name, img)) in seeds.iter().enumerate() {
+            let clean: String = name.chars().map(|c| if c.is_ascii_alphanumeric() { c } else { '_' }).take(60).collect();
+            std::fs::write(format!("{dir}/seed-{i:04}-{clean}"), img).expect("write seed");
+        }
+        println!("{} seed images written to {dir}", seeds.len());
+        std::process::exit(0);
+    }
     let prop_id = args[0].clone();
     let mut tier = match std::env::var("VERIF_TIER").ok().as_deref() {
         Some("thorough") => Tier::Thorough,
